@@ -486,3 +486,119 @@ def rest_no_instance_identity(chk, ctx):
                    key="%s | the callback is accepted or refused by a test on the token's reply queue (`%s`)" % (f.name, norm(tests[0].test) if tests else ""), where=m.line(tests[0]) if tests else f.where(),
                    message="any instance must forward a well-formed token to the queue it names")
     chk.floor("C19.R8", k, 2, "callback handlers")
+
+
+# ---------------------------------------------------------------------------------------------------------------------
+# C02.R6: functions that are handed the execution record do not write it (except the notification's save/restore, C11.R3)
+RECORD_PARAM = "execution_detail"
+RECORD_WRITE_OK = {
+    ("StateEngine.broadcast_notification", "startDate"): "saved before, restored after publishing (C11.R3 checks the restore)",
+    ("StateEngine.broadcast_notification", "stopDate"): "saved before, restored after publishing (C11.R3 checks the restore)",
+}
+
+
+def _param_writes(f, p):
+    out = []
+    for n in body_nodes(f):
+        if isinstance(n, (ast.Assign, ast.AugAssign, ast.Delete)):
+            targets = n.targets if isinstance(n, (ast.Assign, ast.Delete)) else [n.target]
+            for t in targets:
+                if isinstance(t, ast.Subscript) and isinstance(t.value, ast.Name) and t.value.id == p:
+                    out.append((n, const(t.slice) if isinstance(t.slice, ast.Constant) else norm(t.slice)))
+        elif isinstance(n, ast.Call) and isinstance(n.func, ast.Attribute) and isinstance(n.func.value, ast.Name) and n.func.value.id == p and \
+                n.func.attr in ("update", "pop", "clear", "setdefault", "popitem", "__setitem__", "__delitem__"):
+            out.append((n, "." + n.func.attr + "()"))
+    return out
+
+
+def record_receivers_readonly(chk, ctx):
+    class _F:
+        def __init__(self, node):
+            self.node = node
+    _positive("C02.R6", lambda t: _param_writes(_F(t.body[0]), RECORD_PARAM), "def h(self, execution_detail):\n    execution_detail['output'] = 1\n", "store through the record parameter")
+    n = 0
+    for name, m in sorted(ctx.repo.modules.items()):
+        for q, f in sorted(m.funcs.items()):
+            params = [a.arg for a in f.node.args.args]
+            if RECORD_PARAM not in params:
+                continue
+            n += 1
+            ws = _param_writes(f, RECORD_PARAM)
+            bad = [(w, k) for w, k in ws if (q, k) not in RECORD_WRITE_OK]
+            chk.ob("C02.R6", "%s does not write the record it is handed (%d tolerated save/restore writes)" % (q, len(ws) - len(bad)), not bad, "",
+                   key="%s | writes member %s of the execution record it was handed" % (q, sorted({str(k) for w, k in bad})), where=m.line(bad[0][0]) if bad else f.where(),
+                   message="with the in-memory store the argument IS the stored record of the (terminal) execution: writing it changes output/input/status after the execution has ended")
+    chk.floor("C02.R6", n, 2, "functions that receive the execution record")
+
+
+# ---------------------------------------------------------------------------------------------------------------------
+# C08.R7: a request's timer is disarmed only on a path that also completes (removes) the request
+def timer_cleared_only_on_completion(chk, ctx):
+    tdm = ctx.mod("task_dispatcher")
+    n = 0
+    for qn in ("TaskDispatcher.handle_rpcmessage_response", "TaskDispatcher.handle_sfn_response"):
+        f = tdm.func(qn)
+        g = CFG(f.node)
+        clears = [c for c in body_nodes(f) if isinstance(c, ast.Call) and last(callname(c)) == "clear_timeout" and norm(c.args[0]) == "timeout_id"]
+        direct = [c for c in body_nodes(f) if isinstance(c, ast.Call) and last(callname(c)) == "clear_timeout" and isinstance(c.args[0], ast.Subscript) and "request" in norm(c.args[0].value)]
+        removes = [s for s in body_nodes(f) if isinstance(s, ast.Delete) and any(isinstance(t, ast.Subscript) and norm(t.value) == "self.pending_requests" for t in s.targets)]
+        removes += [enclosing_stmt(tdm, c) for c in body_nodes(f) if isinstance(c, ast.Call) and norm(c.func) == "self.pending_requests.pop"]
+        unp = [s for s in body_nodes(f) if isinstance(s, ast.Assign) and isinstance(s.targets[0], ast.Tuple) and norm(s.value) == "request"]
+        for cl in clears:
+            # which timer?  the nearest preceding binding of timeout_id decides: only the one unpacked from `request` is the request's timer
+            defs = sorted((d for d in name_defs(f, "timeout_id") if d.lineno < cl.lineno), key=lambda d: d.lineno)
+            if not defs or norm(defs[-1].value) != "request":
+                continue
+            n += 1
+            cn = g.containing_stmt_node(cl, tdm)
+            # the id must be the matched request's (clear after the unpack), and every normal path from the clear to the exit removes the request
+            after_unpack = bool(unp) and g.dominates(g.node_of(unp[0]), cn)
+            rn = {g.node_of(r) for r in removes}
+            paired = bool(rn) and (any(g.dominates(r, cn) for r in rn) or not g.paths_avoiding(cn, g.exit, rn))
+            chk.ob("C08.R7", "%s: clear_timeout(timeout_id) only where the matched request is removed" % f.name, after_unpack and paired, "",
+                   key="%s | the request's timer is cleared on a path that leaves the request pending" % qn, where=tdm.line(cl),
+                   message="a Task that is still waiting (e.g. a .waitForTaskToken Task after the worker's ordinary reply) must keep its timer: without it neither the Task's nor the "
+                           "execution's TimeoutSeconds can ever fire")
+        for cl in direct:
+            n += 1
+            cn = g.containing_stmt_node(cl, tdm)
+            rn = {g.node_of(r) for r in removes}
+            paired = bool(rn) and (any(g.dominates(r, cn) for r in rn) or not g.paths_avoiding(cn, g.exit, rn))
+            chk.ob("C08.R7", "%s: clear_timeout(%s) only where the matched request is removed" % (f.name, norm(cl.args[0])), paired, "",
+                   key="%s | the request's timer is cleared on a path that leaves the request pending" % qn, where=tdm.line(cl), message="a Task that is still waiting must keep its timer")
+    chk.floor("C08.R7", n, 2, "clear_timeout sites in the completion handlers")
+
+
+# ---------------------------------------------------------------------------------------------------------------------
+# C11.R5: ListExecutions returns every matching record (both front ends)
+def list_executions_exact(chk, ctx):
+    for mn in ("rest_api", "rest_api_asyncio"):
+        m = ctx.mod(mn)
+        le = [f for q, f in m.funcs.items() if f.name == "aws_api_ListExecutions"][0]
+        comps = [n for n in body_nodes(le) if isinstance(n, ast.ListComp)]
+        ok = len(comps) == 1 and norm(comps[0].generators[0].iter) == "self.executions.items()"
+        conds = []
+        if ok:
+            for c in comps[0].generators[0].ifs:
+                conds += [norm(v) for v in (c.values if isinstance(c, ast.BoolOp) and isinstance(c.op, ast.And) else [c])]
+        want = ["v['stateMachineArn'] == state_machine_arn", "status_filter == None or v['status'] == status_filter"]
+        ok = ok and sorted(conds) == sorted(want)
+        chk.ob("C11.R5", "%s ListExecutions enumerates the whole store with exactly the ARN and status filters" % mn, ok, str(conds),
+               key="%s.aws_api_ListExecutions | selection %s" % (mn, conds), where=le.where(),
+               message="the list view must show every execution the other views show: truncating, or matching by key prefix, makes ListExecutions disagree with DescribeExecution and the notifications")
+
+
+# ---------------------------------------------------------------------------------------------------------------------
+# C20.R8: an updated definition is assigned back into the store (the file store persists on __setitem__ only)
+def update_writes_back(chk, ctx):
+    for mn in ("rest_api", "rest_api_asyncio"):
+        m = ctx.mod(mn)
+        up = [f for q, f in m.funcs.items() if f.name == "aws_api_UpdateStateMachine"][0]
+        wb = [s for s in body_nodes(up) if isinstance(s, ast.Assign) and norm(s.targets[0]) == "self.asl_store[state_machine_arn]"]
+        ok = len(wb) == 1 and norm(wb[0].value) == "state_machine"
+        if ok:
+            g = CFG(up.node)
+            rets = [r for r in body_nodes(up) if isinstance(r, ast.Return) and isinstance(r.value, ast.Tuple) and const(r.value.elts[-1]) == 200]
+            ok = bool(rets) and all(g.dominates(g.node_of(wb[0]), g.node_of(r)) for r in rets)
+        chk.ob("C20.R8", "%s UpdateStateMachine assigns the record back under its ARN before answering 200" % mn, ok, "", key="%s.aws_api_UpdateStateMachine | no write-back of the updated record" % mn, where=up.where(),
+               message="JSONStore persists in __setitem__: updating the dictionary it returned changes memory only, so the new definition is gone after a restart")
